@@ -223,7 +223,7 @@ func (c c14Case) key() string {
 }
 
 func c14(run *ev.Run) int {
-	run.SetRule("cases = client programs over {Send, Send(unmarshallable), Send(large), CloseRequest, Receive, CloseResponse, cancel, Send-after-handler-finished} (19 bidi programs on HTTP/2; the typed unary / client-stream / server-stream equivalents on HTTP/1.1 and HTTP/2) x 10 handler programs {receive i, send j, drain or not, large sends, wait for cancel, return nil|error} x 3 protocols, without injection (parallel batches) and with a 25 ms delay injected at every single yield point of the duplex call (thorough: every pair) on a reduced program set (sequential); also handler-side read limit with the client waiting on an open request side; programs whose context is done before the stream exists (X0); history: a plain HTTP/1.1 peer answering 200, the same bidi program three times on one client; oracle = stream reference model: every op returns (watchdog), received is a prefix of the handler's sends and complete when the client kept receiving, draining handlers see the client's sends then EOF, after the handler finished Send fails with an error wrapping io.EOF within 3000 x 64 KiB and Receive reports the handler's outcome, Receive errors are sticky, response body closed >= 1x, no library goroutine left; distinct by (HTTP version, protocol, kind, client program, handler program, injected points)")
+	run.SetRule("cases = client programs over {Send, Send(unmarshallable), Send(large), CloseRequest, Receive, CloseResponse, cancel, Send-after-handler-finished} (19 bidi programs on HTTP/2; the typed unary / client-stream / server-stream equivalents on HTTP/1.1 and HTTP/2) x 10 handler programs {receive i, send j, drain or not, large sends, wait for cancel, return nil|error} x 3 protocols, without injection (parallel batches) and with a 25 ms delay injected at every single yield point of the duplex call (thorough: every pair) on a reduced program set (sequential); also handler-side read limit with the client waiting on an open request side; programs whose context is done before the stream exists (X0); history: a plain HTTP/1.1 peer answering 200, the same bidi program three times on one client; oracle = stream reference model: every op returns (watchdog), received is a prefix of the handler's sends and complete when the client kept receiving, draining handlers see the client's sends then EOF, after the handler finished Send fails with an error wrapping io.EOF within 3000 x 64 KiB and Receive reports the handler's outcome, Receive errors are sticky, response body closed >= 1x, no library goroutine left; distinct by (HTTP version, protocol, kind, client program, handler program, injected points); responses with an empty body on the wire (zero-valued message below the compression threshold) through a body-decorating transport: the decorator's Close is called")
 	run.Assume("'next Receive reports the handler's outcome' is judged only when the tap shows the terminator reached the client (gRPC over HTTP/1.1 can lose trailers when the handler leaves the request body unread: net/http behaviour)")
 	srv := svc.NewServer()
 	defer srv.Close()
